@@ -81,7 +81,12 @@ def _grid_worker(chunk):
     viol = []
     n = 0
     classes = set()
+    slow = 0
     for case in chunk:
+        if len(viol) >= 25 or slow >= 2:
+            # the check has already failed; do not spend minutes on further (possibly looping) cases
+            wit.inc("cases_skipped_after_violations")
+            continue
         n += 1
         try:
             r = fn(case, wit)
@@ -89,6 +94,8 @@ def _grid_worker(chunk):
                 classes.add(r)
         except Violation as v:
             viol.append((v.monitor, v.msg, case))
+            if "terminate" in v.msg or "loop" in v.monitor:
+                slow += 1
     return n, viol, wit, classes
 
 
